@@ -81,6 +81,11 @@ def cases(tier, seed):
                        'framing': ['new', 'old', 'partial'][i % 3], 'sed': i % 7 == 3, 'lit_framing': ['new', 'old'][i % 2]})
             i += 1
     cs.append({'d': 'B2'})
+    # passphrase session-key packets whose wrapping cipher differs from the cipher of the data (what `gpg --symmetric --encrypt` writes)
+    wrap = [7, 9, 3, 8, 13, 2, 11]
+    for w in wrap:
+        for c in ciphers:
+            cs.append({'d': 'B3', 'wrap': w, 'cipher': c})
     if gpgx.available():
         cs.append({'d': 'G', 'n': 1 if tier == 'quick' else 4})
     return cs
@@ -90,7 +95,7 @@ def run_case(ctx, d):
     import pgpy
     with warnings.catch_warnings():
         warnings.simplefilter('ignore')
-        {'A': _A, 'B': _B, 'B2': _B2, 'G': _G, 'refuse': _refuse}[d['d']](ctx, d, pgpy)
+        {'A': _A, 'B': _B, 'B2': _B2, 'B3': _B3, 'G': _G, 'refuse': _refuse}[d['d']](ctx, d, pgpy)
 
 
 def _refuse(ctx, d, pgpy):
@@ -282,6 +287,33 @@ def _B2(ctx, d, pgpy):
             except Exception as e:
                 ctx.fail('pgpy-cannot-decrypt-reference-message', {'case': 'multi-recipient order %s, recipient %d (%s)' % (list(perm), i, recs[i][0]),
                                                                    'err': '%s: %s' % (type(e).__name__, str(e)[:200])})
+    ctx.nontrivial(d)
+
+
+def _B3(ctx, d, pgpy):
+    rng = ctx.rng('B3', d)
+    cid = encwork.CIPHERS[d['cipher']]
+    sk = bytes(rng.getrandbits(8) for _ in range(sym.keylen(cid)))
+    data = b'wrapped with another cipher'
+    lit = encwork.literal_packet(data, b'b', b'', 0)
+    salt = bytes(rng.getrandbits(8) for _ in range(8))
+    blob = encwork.ref_encrypt(lit, cid, sk, [('pass', 'wrap pass', (3, 8, salt, 0x10), False, d['wrap'])])
+    ctx.count('evaluations')
+    try:
+        v = encwork.ref_open(blob, [('pass', b'wrap pass')])
+        assert encwork.open_data(v['data'], *v['results'][0])[0] == lit
+    except Exception as e:
+        ctx.count('case_crashes')
+        ctx.flags.setdefault('crashes', []).append({'case': d, 'error': 'reference cannot open its own message: %r' % e, 'tb': ''})
+        return
+    try:
+        dec = pgpy.PGPMessage.from_blob(blob).decrypt('wrap pass')
+        if bytes(dec._message._contents) != data:
+            ctx.fail('decrypted-reference-message-differs', {'case': d})
+        else:
+            ctx.count('pgpy_opened_ref_output')
+    except Exception as e:
+        ctx.fail('pgpy-cannot-decrypt-reference-message', {'case': d, 'err': '%s: %s' % (type(e).__name__, str(e)[:200])})
     ctx.nontrivial(d)
 
 
